@@ -10,7 +10,7 @@
 //	d:<mb>:<id>           hub.Dispatch          x:<mb>:<id>  hub.Delete
 //	r<k>                  hub.RemoveListener(k)
 //	c<k>                  listener k's Close() — what the socket reader/writer do when the peer goes away —
-//	                      with whatever is still buffered for it; the buffered events are then read off
+//	                      with whatever is still buffered for it (read off only at the end of the case)
 //	w<k>:<n>              the socket writer takes up to n events from k's queue
 //	s                     hub.Sync() with a deadline
 //	g / u                 park the hub goroutine inside the broadcast of a gate message (a harness listener
@@ -110,9 +110,10 @@ func (g *gate) Receive(msg event.MessageMetadata) error {
 func (g *gate) Delete(mailbox string, id string) error { return nil }
 
 type lstn struct {
-	real   *rest.VerifListener
-	mock   *mock
-	closed bool
+	real     *rest.VerifListener
+	mock     *mock
+	closed   bool
+	buffered int // events in the queue when it was closed
 }
 
 func syncWait(hub *msghub.Hub, d time.Duration) bool {
@@ -324,21 +325,14 @@ func runHub(n int, ops []string) []string {
 				outs = append(outs, ".")
 				continue
 			}
-			// Close with the events still buffered, then read off what had been buffered.
-			avail := l.real.QueueLen()
+			// Close with the events still buffered. Nobody reads the queue from now on (the socket
+			// writer is gone); what was buffered is read off at the end of the case.
+			l.buffered = l.real.QueueLen()
 			lr := l.real
 			within(syncDeadline, func() { lr.Close() })
 			l.closed = true
-			var es []evt
-			for i := 0; i < avail; i++ {
-				del, mb, id, ok := l.real.Take()
-				if !ok {
-					break
-				}
-				es = append(es, evt{del, mb, id})
-			}
 			knownBlocked = false
-			outs = append(outs, fmtEvents(b, es))
+			outs = append(outs, fmtEvents(b, nil))
 		default:
 			outs = append(outs, "?")
 		}
@@ -357,7 +351,15 @@ func runHub(n int, ops []string) []string {
 		l := ls[k]
 		switch {
 		case l.closed:
-			outs = append(outs, ".")
+			var es []evt
+			for i := 0; i < l.buffered; i++ {
+				del, mb, id, ok := l.real.Take()
+				if !ok {
+					break
+				}
+				es = append(es, evt{del, mb, id})
+			}
+			outs = append(outs, fmtEvents(b, es))
 		case l.real != nil:
 			outs = append(outs, fmtEvents(b, takeN(l, 1<<30)))
 		default:
